@@ -340,9 +340,15 @@ def atomic_facts(flow, n):
 
 
 def strip_casts(e):
-    while isinstance(e, dict) and e.get("k") in ("cast", "defarg", "definit", "opaque", "stdinitlist"):
-        e = e.get("e")
-    # a copy/move construct of a single argument is transparent for identity purposes
+    while isinstance(e, dict):
+        k = e.get("k")
+        if k in ("cast", "defarg", "definit", "opaque", "stdinitlist"):
+            e = e.get("e")
+        elif k == "construct" and e.get("copy") and len(e.get("args", [])) == 1:
+            # a copy/move construct of a single argument is transparent for identity purposes
+            e = e["args"][0]
+        else:
+            break
     return e
 
 
